@@ -100,6 +100,15 @@ func genCase(t *rapid.T, thorough bool) Case {
 	case "identical":
 		o.LenVals = gen.DyadicZ // zero-length tip branches (polytomy path) are frequent
 		c.Tree = gen.Tree(t, o)
+		if rapid.IntRange(0, 3).Draw(t, "negative") == 1 {
+			// slightly negative tip branches (distance methods produce them; never -1, "no length"):
+			// documented rule "if l==0.0 the new tip hangs on the parent, otherwise on a new node"
+			for _, x := range c.Tree.TipNodes() {
+				if x.Len != nil && rapid.IntRange(0, 2).Draw(t, "neghere") == 0 {
+					x.Len = ref.F(rapid.SampledFrom([]float64{-0.125, -0.5, -2}).Draw(t, "negval"))
+				}
+			}
+		}
 		tips := c.Tree.Tips()
 		perm := rapid.Permutation(tips).Draw(t, "gperm")
 		ng := rapid.IntRange(1, min(3, len(tips))).Draw(t, "ngroups")
@@ -661,7 +670,7 @@ func TestC15Edits(t *testing.T) {
 	f := ref.F
 	h.Run(t, h.Spec[Case]{
 		Property: "C15", Name: "edits", Quick: 20000, Thorough: 800000,
-		Rule: "graft (every tip position, rooted/unrooted graft trees, fresh names; in a third of the cases one grafted tip carries the name of the replaced tip): result equals the host model with the tip replaced by the graft's root, distances among old tips unchanged, look-ups updated; merge of rooted trees on disjoint tips (overlapping tips / unrooted input must be refused): both subtrees unchanged under a new root; identical tips (1-3 groups, 0-3 new tips each, zero-length tip branches frequent; groups with 0 or 2 existing members refused): old distances unchanged, new tip at distance 0 from its model and equidistant to all others; removal of single-child nodes (anywhere, chains, mixed absent/present lengths): none left, same split lengths and distances; subtree at every inner node = reference subtree; clone byte-identical incl. node and branch comments, supports, p-values; twin histories: 1-10 edits of 30 kinds (incl. comment, length and support edits) applied to a clone/subtree (or to the source) while the other tree's text and structure are observed after every step. Non-trivial = multifurcating or rooted tree and (for twins) >= 3 applied edits",
+		Rule: "graft (every tip position, rooted/unrooted graft trees, fresh names; in a third of the cases one grafted tip carries the name of the replaced tip): result equals the host model with the tip replaced by the graft's root, distances among old tips unchanged, look-ups updated; merge of rooted trees on disjoint tips (overlapping tips / unrooted input must be refused): both subtrees unchanged under a new root; identical tips (1-3 groups, 0-3 new tips each, zero-length tip branches frequent, negative ones in a quarter of the cases; groups with 0 or 2 existing members refused): old distances unchanged, new tip at distance 0 from its model and equidistant to all others; removal of single-child nodes (anywhere, chains, mixed absent/present lengths): none left, same split lengths and distances; subtree at every inner node = reference subtree; clone byte-identical incl. node and branch comments, supports, p-values; twin histories: 1-10 edits of 30 kinds (incl. comment, length and support edits) applied to a clone/subtree (or to the source) while the other tree's text and structure are observed after every step. Non-trivial = multifurcating or rooted tree and (for twins) >= 3 applied edits",
 		Gen:  genCase, Check: check,
 		Anchors: []Case{
 			{Kind: "clone", Tree: &ref.Node{Com: []string{"r"}, Ch: []*ref.Node{{Name: "a", Len: f(1), BCom: []string{"bc"}}, {Name: "b", Len: f(2), Com: []string{"nc"}}, {Sup: f(0.5), Pv: f(0.1), Len: f(0.25), BCom: []string{"x"}, Ch: []*ref.Node{{Name: "c"}, {Name: "d"}}}}}},
